@@ -31,6 +31,8 @@ def run(tier):
     vlib.replay_results(c, beh, res, keyfn, "three apply paths on mini nodes",
                         nontrivial=lambda b: any(s["op"] == "apply_batch" for s in b["steps"]))
     c.sample({"behaviour_ops": [s["op"] for s in beh[0]["steps"]]})
+    sm_common.transfer_leg(c, sc, [b for b in beh if b.get("alphabet") != "mcp_thin"][: (40 if quick else 600)], "transfer_c07",
+                           lambda b, r: "C07:import:%s" % r.get("what", "").replace(" ", "_"))
 
     # long native sequences: leader path recorded and validated by TLC; the same sequence through one big
     # follower batch, random batches (1..40 per batch) and start-up replay must give identical dumps
